@@ -133,6 +133,10 @@ func ParseContractFile(path string) (*ContractFile, error) {
 		fields := strings.Fields(l.text)
 		head := fields[0]
 		rest := strings.TrimSpace(strings.TrimPrefix(l.text, head))
+		if strings.HasPrefix(head, "ensures@") {
+			rest = head[len("ensures"):] + " " + rest
+			head = "ensures"
+		}
 		errf := func(format string, a ...any) error {
 			return fmt.Errorf("%s:%d: %s", path, l.no, fmt.Sprintf(format, a...))
 		}
